@@ -151,11 +151,11 @@ impl Div for &UnitSet {
         'rhs: for (ru, rp) in &rhs.units {
             for (lu, lp) in &mut result.units {
                 if lu == ru {
-                    *lp -= rp;
+                    *lp = lp.saturating_sub(*rp);
                     continue 'rhs;
                 }
             }
-            result.units.push((ru.clone(), -rp));
+            result.units.push((ru.clone(), rp.saturating_neg()));
         }
         result.units.retain(|(_u, p)| *p != 0);
         result
@@ -168,7 +168,7 @@ impl Mul for &UnitSet {
         'rhs: for (ru, rp) in &rhs.units {
             for (lu, lp) in &mut result.units {
                 if lu == ru {
-                    *lp += rp;
+                    *lp = lp.saturating_add(*rp);
                     continue 'rhs;
                 }
             }
